@@ -30,6 +30,8 @@ fn target_strategy_unvalidated() -> BoxedStrategy<Target> {
         // file length: trailing garbage / zero sectors, truncated tail
         2 => Just(Target::Extend),
         1 => Just(Target::Truncate),
+        // chains that start in a sector beyond what the FAT sectors cover
+        1 => proptest::sample::select(vec![6u8, 6, 4, 5, 0]).prop_map(Target::UncoveredRef),
     ]
     .boxed()
 }
